@@ -152,7 +152,9 @@ SEEDS = [
     ("M-SEARCH * HTTP/1.1", [["HOST", "239.255.255.250:1900"], ["MAN", '"ssdp:discover"'], ["ST", DEV_TYPE]]),
 ]
 MX_VALUES = ["-1", "0", "1", "5", "10", "abc", "1.5", " 3 ", "", "+2", "-0", "1_0", "99999999999999999999", "0x2",
-             "0.3", "0.25", "1e-3", ".2", "nan", "inf", "4.999", "1e400"]
+             "0.3", "0.25", "1e-3", ".2", "nan", "inf", "4.999", "1e400",
+             # str.isdigit() says yes, int() says no
+             "\u00b2", "3\u00b3", "\u2460", "\u2075"]
 ST_VALUES = ["ssdp:all", "SSDP:ALL", "upnp:rootdevice", DEV_UDN, DEV_UDN.lower(), DEV_TYPE, DEV_TYPE[:-1] + "1", DEV_TYPE[:-1] + "0",
              DEV_TYPE[:-1] + "3", DEV_TYPE.upper(), SVC_TYPES[0], SVC_TYPES[0][:-1] + "2", "urn:foreign:service:X:1", "", "uuid:other", "a:b",
              # version tokens int() accepts although they are no version numbers
@@ -258,6 +260,17 @@ class Plugin:
                 data = bytearray(rng.choice([b"", b"\n", b"NOTIFY", b"GET / HTTP/1.1\r\n\r\n", b"HTTP/1.1 200 OK", bytes(data[:17])]))
         return list(data)
 
+    @staticmethod
+    def _tail_first_line(data, rng):
+        """an otherwise valid message whose first line carries something after the start line (still accepted by the
+        prefix gate): undecodable bytes drop the datagram, anything else is another request line"""
+        data = bytes(data)
+        i = data.find(b"\r\n")
+        if i < 0:
+            return list(data)
+        tail = rng.choice([b"\xff", b"\xff\xfe", b"\xc3", b"0", b" 200 OK", b"/evil", b" ", b"x", b"\x00"])
+        return list(data[:i] + tail + data[i:])
+
     def _known_device_case(self, rng, n):
         """A device becomes known through a valid sighting; then related datagrams for the same USN arrive at the
         combined listener with one header removed, emptied or replaced (byebye without NT, alive with a LOCATION
@@ -305,7 +318,10 @@ class Plugin:
             ep = "EListenerSrch" if start.startswith("HTTP") else "EListenerAdv"
             if rng.random() < 0.1:
                 ep = rng.choice(["EListenerAdv", "EListenerSrch"])
-            steps.append([ep, list(self._build(start, hs)), a if rng.random() < 0.8 else rng.choice(ADDRS), t])
+            data = list(self._build(start, hs))
+            if rng.random() < 0.12:
+                data = self._tail_first_line(data, rng)
+            steps.append([ep, data, a if rng.random() < 0.8 else rng.choice(ADDRS), t])
         return {"steps": steps}
 
     def _server_case(self, rng, n):
@@ -320,7 +336,10 @@ class Plugin:
             if rng.random() < 0.6:
                 hs.append(["MX", rng.choice(MX_VALUES)])
             rng.shuffle(hs)
-            steps.append(["EServer", list(self._build("M-SEARCH * HTTP/1.1", hs)), rng.choice(ADDRS), t])
+            data = list(self._build("M-SEARCH * HTTP/1.1", hs))
+            if rng.random() < 0.12:
+                data = self._tail_first_line(data, rng)
+            steps.append(["EServer", data, rng.choice(ADDRS), t])
         return {"steps": steps}
 
     def _case(self, rng, n):
@@ -333,6 +352,11 @@ class Plugin:
         t = 0
         for _ in range(n):
             t += rng.choice([0, 1, 1, 3, 10, -1, 2000])
+            if rng.random() < 0.08:
+                start, hs = rng.choice(SEEDS)
+                ep = {"N": ["EAdv", "EListenerAdv"], "M": ["EServer"], "H": ["ESearch", "EListenerSrch"]}[start[0]]
+                steps.append([rng.choice(ep), self._tail_first_line(self._build(start, hs), rng), rng.choice(ADDRS), t])
+                continue
             steps.append([rng.choice(EPS + ["EListenerAdv", "EListenerSrch", "EServer"]), self._datagram(rng), rng.choice(ADDRS), t])
         return {"steps": steps}
 
